@@ -1146,6 +1146,58 @@ def check_baseexception(ctx):
             r.close()
 
 
+def check_publication(ctx):
+    """oracle only: the readers (ready / error / value) take no lock, so the order in which the arrival PUBLISHES the outcome matters:
+    a thread that looks between any two lines of AsyncResult.__call__ and finds the result ready must find the outcome that was
+    delivered. The delivery is stepped line by line (sys.settrace on that one code object) and the result is read through its public
+    properties at every stop - exactly what a polling thread scheduled there would see."""
+    import sys as _sys
+    from rpyc.core.async_ import AsyncResult
+
+    class _Conn(object):
+        def poll_all(self): return None
+        def serve(self, *a, **k): raise Hang("a reader of a ready result must not serve")
+    code = AsyncResult.__call__.__code__
+    for is_exc in (False, True):
+        outcome = ValueError("delivered") if is_exc else 42
+        res = AsyncResult(_Conn())
+        bad, stops = [], [0]
+        case = {"publication": "exception" if is_exc else "value"}
+
+        def look(line):
+            stops[0] += 1
+            if not res.ready:
+                return
+            err = bool(res.error)
+            try:
+                got = ("value", res.value)
+            except BaseException as e:
+                got = ("raised", e)
+            want = ("raised", outcome) if is_exc else ("value", outcome)
+            if err != is_exc or got[0] != want[0] or got[1] is not want[1]:
+                bad.append({"line": line, "ready": True, "error": err, "got": "%s %r" % (got[0], got[1])[:120]})
+
+        def local(frame, event, arg):
+            if event in ("line", "return"):
+                look(frame.f_lineno)
+            return local
+
+        def tracer(frame, event, arg):
+            return local if frame.f_code is code else None
+        old = _sys.gettrace()
+        _sys.settrace(tracer)
+        try:
+            res(is_exc, outcome)
+        finally:
+            _sys.settrace(old)
+        ctx.case(("publication", is_exc), nontrivial=stops[0] >= 3, sample={"case": case, "stops": stops[0]})
+        ctx.count("publication-order")
+        if bad:
+            ctx.violation("ready-before-outcome-stored", case, observed=bad[:3], expected="a result that reports ready shows the delivered outcome",
+                          what="between two lines of the arrival the result reports ready while value / error still show the previous "
+                               "(empty) outcome: a polling thread scheduled there reads None or misses the exception")
+
+
 def check_timeouts(ctx, model, r, n, triples=None):
     """the Timeout class alone: finite / tmax / expired / timeleft, and Timeout(Timeout) copies"""
     cases = list(triples or [])
@@ -1223,6 +1275,7 @@ def run(ctx):
         check_cases(ctx, model, cases[i:i + 20000], atomic_impl, flags)
     check_reentrant(ctx)
     check_baseexception(ctx)
+    check_publication(ctx)
     check_timeouts(ctx, model, r, 400 if ctx.quick else 5000)
 
 
@@ -1235,5 +1288,7 @@ def replay(ctx, rep):
         check_reentrant(ctx)
     elif "baseexception" in case:
         check_baseexception(ctx)
+    elif "publication" in case:
+        check_publication(ctx)
     else:
         check_cases(ctx, model, [case], atomic_impl, flags)
